@@ -6,8 +6,25 @@ use lucid_suggest_core::*;
 
 pub const LANGS: [&str; 7] = ["none", "de", "en", "es", "fr", "pt", "ru"];
 
+/// A language assembled through the public `Lang` API only: it composes a/o + ring/diaeresis
+/// (Swedish å ä ö) but folds nothing. Used by C02 / C15 next to the seven shipped languages.
+pub fn lang_custom_sv() -> Lang {
+    let mut l = Lang::new();
+    for (d, c) in tables::COMPOSE_SV {
+        l.add_unicode_composition(d, c);
+    }
+    l
+}
+
+pub const LANGS_EXT: [&str; 8] = ["none", "de", "en", "es", "fr", "pt", "ru", "sv"];
+
+pub fn gen_lang_ext(src: &mut Source) -> &'static str {
+    LANGS_EXT[src.below(8)]
+}
+
 pub fn lang_of(code: &str) -> Lang {
     match code {
+        "sv" => lang_custom_sv(),
         "de" => lang_german(),
         "en" => lang_english(),
         "es" => lang_spanish(),
@@ -89,8 +106,21 @@ pub enum Flavor {
 }
 
 /// one "letter" of a word: returns 1 or 2 chars (decomposed accent)
+/// accented letters of the language: the ones it folds plus the ones it composes
+pub fn accent_letters(lang: &str) -> Vec<char> {
+    let mut v = inventory(lang);
+    for (_, c) in tables::compose_pairs(lang) {
+        if let Some(ch) = c.chars().next() {
+            if !v.contains(&ch) {
+                v.push(ch);
+            }
+        }
+    }
+    v
+}
+
 pub fn gen_letter(src: &mut Source, lang: &str, out: &mut String, upper_ok: bool) {
-    let inv = inventory(lang);
+    let inv = accent_letters(lang);
     let plain = plain_letters(lang);
     // 0 plain, 1 accented precomposed, 2 accented decomposed, 3 upper plain, 4 digit
     let k = src.weighted(&[24, if inv.is_empty() { 0 } else { 4 }, if inv.is_empty() { 0 } else { 2 }, if upper_ok { 2 } else { 0 }, 1]);
@@ -132,6 +162,17 @@ pub fn gen_len(src: &mut Source) -> usize {
 pub fn gen_random_word(src: &mut Source, lang: &str, upper_ok: bool) -> String {
     let n = gen_len(src);
     let mut s = String::new();
+    if src.chance(1, 12) {
+        // low-entropy word: one or two distinct letters (xx, iii, 0000, abab)
+        let plain = plain_letters(lang);
+        let a = if src.chance(1, 4) { *src.pick(&['0', '1', '9']) } else { *src.pick(&plain) };
+        let b = *src.pick(&plain);
+        let n = if src.chance(1, 2) { src.range(1, 4) } else { n };
+        for _ in 0..n {
+            s.push(if src.chance(1, 4) { b } else { a });
+        }
+        return s;
+    }
     for _ in 0..n {
         gen_letter(src, lang, &mut s, upper_ok);
     }
@@ -141,8 +182,19 @@ pub fn gen_random_word(src: &mut Source, lang: &str, upper_ok: bool) -> String {
 /// a word: random letters, real word, stem-bearing, doubled letter, function word, inner punctuation
 pub fn gen_word(src: &mut Source, lang: &str, flavor: Flavor) -> String {
     let adv = flavor == Flavor::Adversarial;
-    let k = src.weighted(&[10, if lang == "en" || lang == "none" { 5 } else { 0 }, 4, 2, 3, if adv { 2 } else { 1 }, 1]);
+    let k = src.weighted(&[10, if lang == "en" || lang == "none" { 5 } else { 0 }, 4, 2, 3, if adv { 2 } else { 1 }, 1, 1, 1]);
     match k {
+        7 => {
+            // a word of another script (Greek in either case, kana with the long-vowel mark, CJK,
+            // fullwidth Latin ...)
+            let n = gen_len(src);
+            let w = gen_script_word(src, n);
+            if src.chance(1, 3) { w.to_uppercase() } else { w }
+        }
+        8 => {
+            // numbers and number-like tokens
+            src.pick(&["10", "000", "12", "5", "2024", "3", "25", "4", "100", "1", "0", "99"]).to_string()
+        }
         0 => gen_random_word(src, lang, true),
         1 => src.pick(en_words()).to_string(),
         2 => {
@@ -178,7 +230,7 @@ pub fn gen_word(src: &mut Source, lang: &str, flavor: Flavor) -> String {
             // inner non-splitting punctuation: 50's, a/b, x_y, c++
             let a = gen_random_word(src, lang, true);
             let b = gen_random_word(src, lang, false);
-            let p = *src.pick(&["'", "/", "_", "+", "’", "."]);
+            let p = *src.pick(&["'", "/", "_", "+", "’", ".", "×", "·", "º", "%", "#"]);
             format!("{}{}{}", a, p, b)
         }
         _ => {
@@ -232,8 +284,8 @@ pub fn gen_vocab(src: &mut Source, lang: &str, flavor: Flavor, lo: usize, hi: us
 
 pub fn gen_sep(src: &mut Source, flavor: Flavor) -> &'static str {
     if flavor == Flavor::Clean {
-        const S: &[&str] = &[" ", "-", ", ", "  ", " - ", "\t", ". "];
-        S[src.weighted(&[20, 4, 2, 1, 1, 1, 1])]
+        const S: &[&str] = &[" ", "-", ", ", "  ", " - ", "\t", ". ", ",", ".", ":", ";", "&", "!", "?", "(", ")", "\u{2011}", "\u{2013}", "\u{2014}", "\u{a0}", "\u{3000}", "\u{2009}", "\n"];
+        S[src.weighted(&[40, 8, 4, 2, 2, 2, 2, 2, 2, 1, 1, 1, 1, 1, 1, 1, 1, 1, 1, 1, 1, 1, 1])]
     } else {
         const S: &[&str] = &[" ", "-", ", ", "  ", "—", "\t", "\u{a0}", "\0", "'", "_", "/", " \0 ", "\u{2028}", "!?", "\u{200b}", "+"];
         S[src.weighted(&[20, 5, 2, 2, 1, 1, 1, 2, 1, 1, 1, 1, 1, 1, 1, 1])]
@@ -288,7 +340,9 @@ pub const SCRIPTS: &[&str] = &[
     "कखगघचछजझटठडढणतथदधनपफबभमयरलवशषसह",
     "กขคงจฉชซญดตถทธนบปผฝพฟภมยรลวศษสหอ",
     "あいうえおかきくけこさしすせそたちつてとなにぬねのはひふへほ",
-    "アイウエオカキクケコサシスセソタチツテトナニヌネノハヒフヘホ",
+    "アイウエオカキクケコサシスセソタチツテトナニヌネノハヒフヘホーーー",
+    "ｌｅｄｕｓｂｈｗａｏ２０ＬＥＤＵＳＢ",
+    "åäöabdeklmnrstÅÄÖ",
     "一二三四五六七八九十百千万円日月火水木金土年時分",
     "가나다라마바사아자차카타파하",
     "აბგდევზთიკლმნოპჟრსტუფქღყშჩცძწჭხჯჰ",
@@ -325,8 +379,10 @@ pub fn gen_adversarial_text(src: &mut Source, lang: &str, maxlen: usize) -> Stri
     let n = src.below(maxlen + 1);
     let mut s = String::new();
     let plain = plain_letters(lang);
+    let script: Vec<char> = src.pick(SCRIPTS).chars().collect();
     for _ in 0..n {
-        match src.weighted(&[12, 3, 4, 3, 1]) {
+        match src.weighted(&[12, 3, 4, 3, 1, 1]) {
+            5 => s.push(*src.pick(&script)),
             0 => s.push(*src.pick(&plain[..8])),
             1 => s.push(' '),
             2 => gen_letter(src, lang, &mut s, true),
